@@ -136,8 +136,10 @@ def write (peer : Conn) (p : Bytes) : Nat × Conn :=
   (p.length, peer.arrive (.msg binaryMessage p true))
 
 /-- `Conn.Close()` on this side (`wsConn.Close()` closes the TCP connection without a close
-frame): later reads fail with a non-close error; the peer observes `Frame.close`. -/
-def Conn.closeLocal (c : Conn) : Conn := { reader := none, inq := c.inq, readErr := some .other }
+frame): later reads fail - with gorilla's sticky read error if one was already recorded, else
+with a non-close error ("use of closed network connection"); the peer observes `Frame.close`. -/
+def Conn.closeLocal (c : Conn) : Conn :=
+  { reader := none, inq := c.inq, readErr := some (c.readErr.getD .other) }
 
 def Conn.isClosed (c : Conn) : Bool := c.reader.isNone && c.readErr.isSome
 
